@@ -792,3 +792,84 @@ def _gen_bucket_allreduce(rng, model):
         return Case(AllreduceTensorBucket.allreduce, {'self': b}, [b], {},
                     note=f'group {"world" if group is None else lists[pick]}, {n} tensors of dtypes {[str(t.dtype) for t in b._tensors]}')
     return MultiRankCase(world, build, note=f'world {world}, seed {seed}')
+
+
+@gen('kfac.distributed:TorchDistributedCommunicator.flush_allreduce_buckets')
+def _gen_flush(rng, model):
+    world = rng.choice([1, 2, 2, 3, 3])
+    seed = rng.randrange(1 << 30)
+
+    def build(rank, world):
+        import random
+        import torch
+        import torch.distributed as dist
+        from kfac.distributed import TorchDistributedCommunicator
+        r = random.Random(seed)
+        lists = _subgroups(r, world)
+        groups = [dist.new_group(l) for l in lists] + [None]
+        lists = lists + [list(range(world))]
+        tdc = TorchDistributedCommunicator(bucket_cap_mb=r.choice([25.0, 0.0001, 0.0004, 0.00002]))
+        tdc._vp_requests = []
+        for _ in range(r.choice([0, 1, 2, 4, 6])):
+            gi = r.randrange(len(groups))
+            rr = random.Random(r.randrange(1 << 30))
+            t = _rand_tensor(rr)
+            average, symmetric = r.random() < 0.6, (t.dim() == 2 and t.shape[0] == t.shape[1] and r.random() < 0.6)
+            if rank not in lists[gi]:
+                continue
+            if symmetric:
+                t = (t + t.t()) / 2
+            t = t + rank * (1 if not symmetric else 0) + (rank if symmetric else 0) * torch.eye(t.shape[0], dtype=t.dtype) if symmetric else t + rank
+            fut = tdc.allreduce_bucketed(t.clone(), average=average, group=groups[gi], symmetric=symmetric)
+            tdc._vp_requests.append((t.clone(), average, groups[gi], symmetric, fut))
+        return Case(TorchDistributedCommunicator.flush_allreduce_buckets, {'self': tdc}, [tdc], {},
+                    note=f'groups {lists}, {len(tdc._vp_requests)} pending requests on this rank, cap {tdc._bucket_cap_mb} MB')
+    return MultiRankCase(world, build, note=f'world {world}, seed {seed}')
+
+
+def _gen_comm(method):
+    key = f'kfac.distributed:TorchDistributedCommunicator.{method}'
+
+    @gen(key)
+    def g(rng, model):
+        world = rng.choice([1, 2, 2, 3])
+        seed = rng.randrange(1 << 30)
+
+        def build(rank, world):
+            import random
+            import torch
+            import torch.distributed as dist
+            from kfac.distributed import TorchDistributedCommunicator
+            r = random.Random(seed)
+            lists = _subgroups(r, world)
+            groups = [dist.new_group(l) for l in lists] + [None]
+            lists = lists + [list(range(world))]
+            gi = r.randrange(len(groups))
+            rr = random.Random(r.randrange(1 << 30))
+            t = _rand_tensor(rr, [torch.float32, torch.float64])
+            if r.random() < 0.3:
+                t = torch.randn(r.choice([(2, 4), (3, 2), (2, 2, 2)]))
+            symmetric = r.random() < 0.6
+            if symmetric and t.dim() == 2 and t.shape[0] == t.shape[1]:
+                t = (t + t.t()) / 2 + rank * torch.eye(t.shape[0], dtype=t.dtype)
+            else:
+                t = t + rank
+            average = r.random() < 0.5
+            src = r.choice(lists[gi])
+            if rank not in lists[gi]:
+                return None
+            tdc = TorchDistributedCommunicator()
+            fn = getattr(TorchDistributedCommunicator, method)
+            if method == 'broadcast':
+                params = {'self': tdc, 'tensor': t, 'src': src, 'group': groups[gi], 'symmetric': symmetric}
+                kw = {'src': src, 'group': groups[gi], 'symmetric': symmetric}
+            else:
+                params = {'self': tdc, 'tensor': t, 'average': average, 'group': groups[gi], 'symmetric': symmetric}
+                kw = {'average': average, 'group': groups[gi], 'symmetric': symmetric}
+            return Case(fn, params, [tdc, t], kw, note=f'group {lists[gi]}, shape {tuple(t.shape)}, symmetric={symmetric}')
+        return MultiRankCase(world, build, note=f'world {world}, seed {seed}')
+    return g
+
+
+_gen_comm('allreduce')
+_gen_comm('broadcast')
